@@ -19,6 +19,8 @@ void vp_atomic_begin(void);
 void vp_atomic_end(void);
 void vp_shared(const void *p, size_t n); // declare object shared for race instrumentation
 void vp_point(const char *name);
+bool vp_feq(float a, float b);   // symbolic: exact equality in the engine's number semantics; native replay: relative tolerance
+bool vp_deq(double a, double b);
 void vp_nothrow(bool on);               // while on: any C++ exception thrown is an assertion failure (and the path ends)        // scheduling point (RKCOMMON_VERIF hooks)
 }
 static inline int vp_nondet_int() { return (int)vp_nondet_u32(); }
